@@ -10,6 +10,7 @@ native_impl={
 'vxChoice':'return vxPlanChoice(name)',
 'vxConcrete':'return v',
 'vxConcreteStr':'return s',
+'vxShape':'return s',
 'vxAssume':'if !c { fmt.Println("VXASSUME-FAILED"); os.Exit(3) }',
 'vxAssert':'if !c { fmt.Println("VXFAIL " + id); vxFailed = true } else { fmt.Println("VXOK " + id) }',
 'vxKnown':'if !c { fmt.Println("VXKNOWN " + id) } else { fmt.Println("VXOK " + id) }',
